@@ -132,3 +132,7 @@ pub fn mv_decode(
 
     (out_x, out_y).into()
 }
+
+#[cfg(any(kani, ruffle_rs_h263_rs_verif))]
+#[path = "/verif/hooks/h263/decoder/cpu/mvd_pred.rs"]
+mod verif_hook;
